@@ -76,7 +76,16 @@ func runC09(c *an.Ctx) {
 				n++
 				// <v>.String() where v := st.evalPrimaryExpressionGroup(node.Name)
 				dc, isCall := an.Unparen(d).(*ast.CallExpr)
-				if !isCall || an.CalleeName(info, dc) != "(reflect.Value).String" {
+				if !isCall {
+					okName = false
+					continue
+				}
+				switch an.CalleeName(info, dc) {
+				case "(reflect.Value).String":
+					// a value of kind string: its content
+				case "(fmt.Stringer).String":
+					// a fmt.Stringer: what it says — <v>.Interface().(fmt.Stringer).String()
+				default:
 					okName = false
 					continue
 				}
